@@ -434,7 +434,7 @@ func (r *run) reset() string {
 		}
 	}
 	// everything written so far is read by the transport before the connection is aborted
-	for i := 0; i < 3000 && r.frameCount() < complete; i++ {
+	for i := 0; i < 15000 && r.frameCount() < complete; i++ {
 		time.Sleep(time.Millisecond)
 	}
 	time.Sleep(20 * time.Millisecond)
@@ -847,7 +847,9 @@ func exec(op string) string {
 		}
 		cur.udpc = c
 		c.Write(b[k:])
-		for i := 0; i < 30 && cur.frameCount() == before; i++ {
+		// wait for the block: once it is out, the socket error has been consumed by the transport's
+		// Read (errors are reported before queued datagrams), so it cannot surface in a later Write
+		for i := 0; i < 2000 && cur.frameCount() == before; i++ {
 			time.Sleep(time.Millisecond)
 		}
 		return fmt.Sprintf("k=%d w", len(b))
